@@ -283,14 +283,20 @@ fn boundary(rep: &mut Report, k: &Kind) {
 pub fn hostile_frames(number: u16) -> Vec<Vec<u8>> {
     let (sat_bits, sigs, hdr_bits): (usize, &[(u8, u8, char)], usize) = if number == 1059 { (6, GPS_BIAS_SIGS, 20 + 4 + 1 + 4 + 16 + 4) } else { (5, GLO_BIAS_SIGS, 17 + 4 + 1 + 4 + 16 + 4) };
     let mut out = vec![];
-    for plen in [1023usize, 1022, 1000, 980, 950, 900, 800, 600, 400, 100, 40, 12, 9] {
+    // (payload length, announced satellite count): the full-length payload with every satellite count,
+    // shorter payloads with the maximum count
+    let mut shapes: Vec<(usize, u64)> = [1023usize, 1022, 1000, 980, 950, 900, 800, 600, 400, 100, 40, 12, 9].iter().map(|p| (*p, 63u64)).collect();
+    for sc in 1..=63u64 {
+        shapes.push((1023, sc));
+    }
+    for (plen, sat_count) in shapes {
         for sig_mode in 0..3 {
             let mut w = BitW::new();
             w.put(number as u64, 12);
             w.put(0, hdr_bits);
-            w.put(63, 6);
+            w.put(sat_count, 6);
             let mut n = 0usize;
-            'f: for s in 0..63u64 {
+            'f: for s in 0..sat_count {
                 w.put(s & ((1 << sat_bits) - 1), sat_bits);
                 w.put(31, 5);
                 for j in 0..31 {
@@ -382,7 +388,7 @@ pub fn c16(ctx: &Ctx) -> (Report, Meta) {
     rep.sample(json!({"number":1059,"entries":[[63,1,"C",0.37],[0,5,"Q",-1.2],[63,2,"W",0.01]],"expect":"Err, or decodes to the same multiset grouped by ascending satellite"}));
     rep.sample(json!({"number":1059,"scope":"all 64 satellites x 1 signal","expect":"Err (the 6-bit satellite count cannot hold 64) - never a frame that loses entries"}));
     let meta = Meta {
-        rule: "1059 / 1065: every assignment of the satellites {0,1,31,32,63} (clipped to the message's range) to subsets of {first, second, last} recognised signal (8^n - 1 lists), each in every permutation for <= 5 entries (6 structured orders above; capped at 24 per list in quick); boundary scopes: all / all-but-one satellites, 390 and 389 entries, entries of a satellite scattered through the list, all signals on one satellite in every rotation, 31..390 entries on one satellite (repeated signals; relaxed oracle: no key lost, nothing invented), satellite ids beyond the message's range, empty list, extreme grid biases; 1230: all signal subsets in all permutations. Oracle: build returns Err, or the built frame decodes to the same multiset of (satellite, signal, bias) with satellites non-decreasing. Hostile frames (63 satellites x 31 biases, payloads 9..1023 bytes, recognised / repeated / unrecognised ids): no panic, at most 390 entries. states = lists / frames; transitions = build and decode calls".into(),
+        rule: "1059 / 1065: every assignment of the satellites {0,1,31,32,63} (clipped to the message's range) to subsets of {first, second, last} recognised signal (8^n - 1 lists), each in every permutation for <= 5 entries (6 structured orders above; capped at 24 per list in quick); boundary scopes: all / all-but-one satellites, 390 and 389 entries, entries of a satellite scattered through the list, all signals on one satellite in every rotation, 31..390 entries on one satellite (repeated signals; relaxed oracle: no key lost, nothing invented), satellite ids beyond the message's range, empty list, extreme grid biases; 1230: all signal subsets in all permutations. Oracle: build returns Err, or the built frame decodes to the same multiset of (satellite, signal, bias) with satellites non-decreasing. Hostile frames (announced satellite count 1..=63 x 31 biases per satellite, payloads 9..1023 bytes, recognised / repeated / unrecognised ids): no panic, at most 390 entries. states = lists / frames; transitions = build and decode calls".into(),
         exhaustive: true,
         bounds: json!({"satellite_scope":[0,1,31,32,63],"signals_per_satellite":"subsets of 3","permutations":"all for <=5 entries"}),
         assumptions: vec!["bias values are grid values obtained from the real decoder for a given pattern (C08 decides the grid round trip)".into()],
